@@ -1325,7 +1325,7 @@ def layout_contracts():
         raises=[Raises("ValueError", when=lambda c: z3.Length(c.args["path"].t) == 0, label="empty path"),
                 Raises(BAD, label="directory creation / decoder / member extraction failed")],
         ensures=[completes("folder-k-decoded-from-its-own-pack-stream"), ("zero-length-files-are-created-empty", internal(ea_zero_length))],
-        loops=merged(role(is_seq("tuple", "Folder"), "folder-k-decoded-from-its-own-pack-stream", ea_inv),
+        loops=merged(role(is_seq("tuple", "Folder", "int"), "folder-k-decoded-from-its-own-pack-stream", ea_inv),
                    role(is_seq(tag="zidx"), ZL_LABEL, zl_inv)),
         note="for every folder k that has files: the bytes handed to _extract_files_from_folder are "
              "decode_chain(folder k, archive[pack_pos + sum(pack_sizes[:k]) : +pack_sizes[k]])"))
@@ -1501,7 +1501,20 @@ def with_passthrough(ex, st, cm, phase):
         return [(st, cm)]
 
 
+def m_seq_startswith(ex, st, obj, args, kwargs, node):
+    """bytes.startswith(prefix | tuple of prefixes) on a byte sequence of symbolic length"""
+    if not (isinstance(obj, VSeq) and obj.is_bytes and len(args) == 1):
+        return ex.havoc_call(st, "seq.startswith", args, node)
+    cands = list(args[0].items) if isinstance(args[0], VTuple) else [args[0]]
+    if not all(isinstance(c_, VBytes) for c_ in cands):
+        return ex.havoc_call(st, "seq.startswith", args, node)
+    alts = [z3.And([obj.length >= len(c_.items)] + [ex.as_byte(obj.elem(z3.IntVal(i))).t == ex.as_byte(b).t for i, b in enumerate(c_.items)])
+            for c_ in cands]
+    return [(st, VBool(z3.Or(alts + [z3.BoolVal(False)])))]
+
+
 def install_members(reg):
+    reg.method_models[("seq", "startswith")] = m_seq_startswith
     reg.method_models[("Stream7z", "seek")] = m_stream_seek
     reg.ext_models[("const", "os.SEEK_END")] = VInt(2)
     common.install_clock(reg)
